@@ -43,6 +43,13 @@ def spec_mutants(work):
         violated = "Invariant NetBounds is violated" in out
         print("design-level F11 %-20s NetBounds violated=%s expected=%s" % (cfg, violated, expect))
         ok = ok and (violated == expect)
+    # F12 (an item missed although it qualified throughout, its witnesses replacing one another) at design level
+    wd = os.path.join(work, "MC_coopnet_f12.cfg")
+    shutil.copytree(src, wd)
+    rc, out, wall = runner.tlc(wd, "MC_coopnet", cfg="MC_coopnet_f12.cfg", workers="4")
+    violated = "Invariant NoMissing is violated" in out
+    print("design-level F12 MC_coopnet_f12.cfg      NoMissing violated=%s expected=True" % violated)
+    ok = ok and violated
     # pagination sessions interleaved with insertions: a session that feeds back a wrong token must be caught
     src = os.path.join(VERIF, "spec", "mc", "pag")
     for cfg, inv in (("MC_pag_stale.cfg", "NoRepeat"), ("MC_pag_ahead.cfg", "NothingSkipped")):
